@@ -21,6 +21,8 @@ def datasets(rng, N, n_coef):
         d = rng.normal(size=(n, N, 3)) * 0.05
         f = rng.normal(size=(n, N, 3))
         out.append((kind, d, f))
+    # tiny amplitudes: the columns of the different orders scale as |u|, |u|^2, |u|^3 -- small but perfectly determined
+    out.append(("tiny-amplitude", rng.normal(size=(need + 6, N, 3)) * 0.0003, rng.normal(size=(need + 6, N, 3))))
     # rank deficient: displacements confined to one direction of one atom
     d = np.zeros((need + 3, N, 3))
     d[:, 0, 0] = rng.normal(size=need + 3) * 0.05
@@ -71,7 +73,7 @@ def check(ctx):
                         raised = None
                         try:
                             solve_with_batch(o, P, orders, False, bs)
-                        except Exception as e:  # noqa: BLE001
+                        except (np.linalg.LinAlgError, ValueError, RuntimeError, IndexError, ZeroDivisionError) as e:   # the implementation failing loudly
                             raised = e
                         ctx.case({"cell": P.sc["name"], "orders": list(orders), "data": kind, "n_snap": int(d.shape[0]), "batch": bs, "n_coef": int(ncoef)},
                                  nontrivial=raised is None)
@@ -83,7 +85,7 @@ def check(ctx):
                         y = f.reshape(-1)
                         # coefficients back from the returned full force constants (expanded basis is orthonormal)
                         coefs = []
-                        from solvers import solve_with_batch, expanded_basis
+                        from solvers import expanded_basis
                         for m in orders:
                             T = expanded_basis(P.basis[m], m, P.N).reshape(P.nb[m], -1)
                             coefs.append(T @ o.force_constants[m].reshape(-1))
@@ -91,6 +93,18 @@ def check(ctx):
                         g = X.T @ (y - X @ c)
                         scale = max(np.abs(X.T @ y).max(), np.abs(X.T @ X).max() * max(np.abs(c).max(), 1e-300), 1e-300)
                         rel = float(np.abs(g).max() / scale)
+                        # column-wise: the residual is orthogonal to every basis force pattern (cosines, scale-free per column)
+                        r_ = y - X @ c
+                        nr = float(np.linalg.norm(r_))
+                        if nr > 1e-9 * float(np.linalg.norm(y)):
+                            cn = np.linalg.norm(X, axis=0)
+                            ok_cols = cn > 0
+                            cosines = np.abs(X[:, ok_cols].T @ r_) / (cn[ok_cols] * nr)
+                            worst_cos = float(cosines.max()) if cosines.size else 0.0
+                            if not worst_cos <= 1e-5:
+                                ctx.fail("oracle", f"C06/oracle/orthogonality/{kind}", f"{P.sc['name']} orders {orders} data '{kind}' ({d.shape[0]} snapshots, batch_size {bs}): the residual is not orthogonal to a basis force pattern "
+                                         f"(cosine {worst_cos:.2e}), i.e. a better admissible fit exists, and no exception was raised",
+                                         replay={**P.describe(), "orders": list(orders), "data_kind": kind, "n_snap": int(d.shape[0]), "batch_size": bs, "disps": d.tolist(), "forces": f.tolist(), "cosine": worst_cos}, has_input=True)
                         if not rel <= 1e-7:
                             key = f"C06/oracle/normal-eq/{kind}"
                             ctx.fail("oracle", key, f"{P.sc['name']} orders {orders} data '{kind}' ({d.shape[0]} snapshots, {ncoef} coefficients, batch_size {bs}): "
@@ -99,6 +113,7 @@ def check(ctx):
                                              "disps": d.tolist(), "forces": f.tolist(), "rel_residual": rel}, has_input=True)
     finally:
         sf.get_lapack_funcs = orig
+    ctx.require("some over-determined fits returned coefficients (outcome:returned > 0) and posv was called", ctx.distribution.get("outcome:returned", 0) > 0 and calls["n"] > 0)
     ctx.distribution["posv_calls"] = calls["n"]
     ctx.distribution["posv_info_nonzero"] = calls["info_nonzero"]
     if calls["contract_violations"]:
